@@ -71,6 +71,18 @@ TraceMain ==
     /\ memo' = IF ParamsOK(Ev.p) /\ Ev.rc = 0 /\ ~(Ev.p \in DOMAIN memo) THEN memo @@ (Ev.p :> Ev.board) ELSE memo
     /\ files' = files \cup New
 
+\* the same parameters generated again in the same directory: still one loadable file
+TraceMainAgain ==
+    /\ IsEvent("MainAgain")
+    /\ fails' = fails \cup
+         (IF ~ParamsOK(Ev.p) THEN {}
+          ELSE (IF Ev.rc = 0 THEN {} ELSE {"C11.Rerun rc=" \o ToString(Ev.rc) \o " " \o Ev.etype})
+               \cup (IF Ev.rc = 0 /\ SeqToSet(Ev.after) # SeqToSet(Ev.before) THEN {"C17.Single (rerun)"} ELSE {})
+               \cup (IF Ev.rc = 0 /\ Ev.keys # <<"game_a", "game_b", "game_c">> THEN {"C11.Loads (rerun)"} ELSE {})
+               \cup (IF Ev.rc = 0 /\ Ev.p \in DOMAIN memo /\ memo[Ev.p] # Ev.board THEN {"C15.Reproducible (rerun)"} ELSE {}))
+    /\ notes' = notes \cup {"C11.rerun"}
+    /\ UNCHANGED <<gvars, names>>
+
 TraceFreq ==
     /\ IsEvent("Freq")
     /\ fails' = fails \cup
@@ -86,6 +98,6 @@ Verdict ==
     /\ PrintT(ToJson([tid |-> S.tid, fails |-> fails, notes |-> notes]))
     /\ l' = l + 1 /\ UNCHANGED <<gvars, tid, fails, notes, names>>
 
-Next == TraceCheck \/ TraceGen \/ TraceMain \/ TraceFreq \/ Verdict
+Next == TraceCheck \/ TraceGen \/ TraceMain \/ TraceMainAgain \/ TraceFreq \/ Verdict
 Spec == Init /\ [][Next]_tvars
 =============================================================================
